@@ -516,7 +516,12 @@ def evaluate(case):
                                   "body-raises" if exp["raised"] == "Boom" else "rejected-at-" + str(exp["stage"])))
     discs = P.compare(exp, obs, case)
     if discs:
-        as_if_no_opts = bool(exp0 is not None and not P.compare(exp0, obs, case))
+        as_if_no_opts = False
+        if exp0 is not None and f["getters"]:
+            try:  # would pandera's behaviour be right if the *input* validations had been given no options?
+                as_if_no_opts = not P.compare(P.reference(case, opts, in_opts=P.DEFAULT_OPTS), obs, case)
+            except P.Skip:
+                as_if_no_opts = False
         for kind, detail in discs:
             if isinstance(detail, dict):
                 detail = dict(detail)
